@@ -53,7 +53,7 @@ fn wait_go() {
 impl IoSched for PipeSched {
     fn io_point(&self, kind: Kind, fd: i32, _ino: u64, arg: i64) -> Option<i32> {
         match kind {
-            Kind::Lseek => None,
+            Kind::Lseek | Kind::Stat => None,
             Kind::Flock => {
                 let locking = arg & (libc::LOCK_EX as i64) != 0 || arg & (libc::LOCK_SH as i64) != 0;
                 let nonblocking = arg & (libc::LOCK_NB as i64) != 0;
@@ -98,6 +98,22 @@ impl IoSched for PipeSched {
 static PIPE_SCHED: PipeSched = PipeSched;
 
 /// The body of one opener process (runs in a forked copy of the worker, never returns).
+/// A commit that has to grow the file and map it again.
+pub fn growth_commit(db: &jammdb::DB) -> Result<(), String> {
+    let r = real::guarded(|| -> Result<(), String> {
+        let tx = db.tx(true).map_err(|e| format!("tx(true): {:?}", e))?;
+        let b = tx.get_or_create_bucket("junk").map_err(|e| format!("{:?}", e))?;
+        b.put("big", vec![7u8; 200_000]).map_err(|e| format!("{:?}", e))?;
+        drop(b);
+        tx.commit().map_err(|e| format!("growing commit: {:?}", e))
+    });
+    match r {
+        Ok(Ok(())) => Ok(()),
+        Ok(Err(e)) => Err(e),
+        Err(p) => Err(format!("panicked in the growing commit: {}", p.replace('\n', " "))),
+    }
+}
+
 /// A commit whose first sync fails (it must report the error), then a commit that has to grow
 /// the file and map it again (it must succeed).  Used by the thread and the process openers.
 pub fn sync_fault_then_growth(db: &jammdb::DB) -> Result<(), String> {
@@ -146,7 +162,8 @@ pub fn sync_fault_then_growth(db: &jammdb::DB) -> Result<(), String> {
     }
 }
 
-fn child_body(path: &str, i: usize, n: usize, init_fault: bool, second_fd: bool, sync_fault_grow: bool) -> ! {
+#[allow(clippy::too_many_arguments)]
+fn child_body(path: &str, i: usize, n: usize, init_fault: bool, second_fd: bool, sync_fault_grow: bool, stat_fault: bool, grow_plain: bool) -> ! {
     let path = path.to_string();
     let dir = std::path::Path::new(&path).parent().unwrap().to_string_lossy().to_string();
     iosim::set_track_prefix(&dir);
@@ -155,10 +172,14 @@ fn child_body(path: &str, i: usize, n: usize, init_fault: bool, second_fd: bool,
         plan.armed = true;
         plan.fault = Some(iosim::Fault::nth(Kind::Fallocate, 0, libc::ENOSPC));
     }
+    if stat_fault {
+        plan.armed = true;
+        plan.fault = Some(iosim::Fault::nth(Kind::Stat, 0, libc::EIO));
+    }
     iosim::install_plan(plan);
-    let cfg = Cfg { num_pages: 16 * (i + 1), ..Cfg::default() };
+    let cfg = Cfg { num_pages: 16 * (i + 1), populate: i % 2 == 1, ..Cfg::default() };
     let opened = real::guarded(|| cfg.open(&path));
-    let fired = init_fault
+    let fired = (init_fault || stat_fault)
         && iosim::with_plan(|p| {
             p.armed = false;
             p.fault = None;
@@ -183,6 +204,11 @@ fn child_body(path: &str, i: usize, n: usize, init_fault: bool, second_fd: bool,
     let helper = db.clone();
     drop(helper);
     say("I entered");
+    if grow_plain {
+        if let Err(e) = growth_commit(&db) {
+            say(&format!("I err {}", e));
+        }
+    }
     if sync_fault_grow {
         if let Err(e) = sync_fault_then_growth(&db) {
             say(&format!("I err {}", e));
@@ -283,6 +309,8 @@ pub struct PCase {
     pub second_fd: bool,
     /// this opener first runs a commit whose first sync fails, then one that grows the file
     pub sync_fault_grow: Option<usize>,
+    pub stat_fault: Option<usize>,
+    pub grow_plain: Option<usize>,
 }
 
 #[derive(Default)]
@@ -374,7 +402,8 @@ fn reap(procs: &mut [Proc]) {
 }
 
 /// forks one opener; the child never returns
-fn spawn_opener(path: &str, i: usize, n: usize, init_fault: bool, second_fd: bool, sync_fault_grow: bool) -> Result<Proc, String> {
+#[allow(clippy::too_many_arguments)]
+fn spawn_opener(path: &str, i: usize, n: usize, init_fault: bool, second_fd: bool, sync_fault_grow: bool, stat_fault: bool, grow_plain: bool) -> Result<Proc, String> {
     let mut to_child = [0i32; 2];
     let mut from_child = [0i32; 2];
     unsafe {
@@ -395,7 +424,7 @@ fn spawn_opener(path: &str, i: usize, n: usize, init_fault: bool, second_fd: boo
             }
             CHILD_IN.store(to_child[0], std::sync::atomic::Ordering::Relaxed);
             CHILD_OUT.store(from_child[1], std::sync::atomic::Ordering::Relaxed);
-            child_body(path, i, n, init_fault, second_fd, sync_fault_grow);
+            child_body(path, i, n, init_fault, second_fd, sync_fault_grow, stat_fault, grow_plain);
         }
         libc::syscall(libc::SYS_close, to_child[0]);
         libc::syscall(libc::SYS_close, from_child[1]);
@@ -420,7 +449,7 @@ pub fn run_one(case: &PCase, path: &str, prefix: &[u8]) -> (ExecResult, Vec<Judg
     let n = case.openers;
     let mut procs: Vec<Proc> = vec![];
     for i in 0..n {
-        match spawn_opener(path, i, n, case.init_fault == Some(i), case.second_fd, case.sync_fault_grow == Some(i)) {
+        match spawn_opener(path, i, n, case.init_fault == Some(i), case.second_fd, case.sync_fault_grow == Some(i), case.stat_fault == Some(i), case.grow_plain == Some(i)) {
             Ok(p) => procs.push(p),
             Err(e) => {
                 reap(&mut procs);
@@ -541,7 +570,7 @@ pub fn run_one(case: &PCase, path: &str, prefix: &[u8]) -> (ExecResult, Vec<Judg
         }
         if !o.interrupted.is_empty() {
             outcome.push_str(&format!("initfail{:?};", o.interrupted));
-            if case.init_fault.is_none() {
+            if case.init_fault.is_none() && case.stat_fault.is_none() {
                 js.push(Judgement { class: "open_failed".into(), detail: format!("openers {:?} reported an I/O error although none was injected", o.interrupted) });
             }
         }
@@ -581,7 +610,7 @@ pub fn run_one(case: &PCase, path: &str, prefix: &[u8]) -> (ExecResult, Vec<Judg
 pub fn debug_run(args: &[String]) {
     let scratch = crate::report::scratch_dir();
     let path = format!("{}/c13p-debug.db", scratch);
-    let case = PCase { openers: args[0].parse().unwrap(), file_exists: args[1] == "1", init_fault: None, second_fd: args.get(3).map(|s| s == "1").unwrap_or(false), sync_fault_grow: None };
+    let case = PCase { openers: args[0].parse().unwrap(), file_exists: args[1] == "1", init_fault: None, second_fd: args.get(3).map(|s| s == "1").unwrap_or(false), sync_fault_grow: None, stat_fault: None, grow_plain: None };
     let prefix: Vec<u8> = args.get(2).map(|s| s.split(',').filter(|x| !x.is_empty()).map(|x| x.parse().unwrap()).collect()).unwrap_or_default();
     let t0 = std::time::Instant::now();
     let (res, js, outcome) = run_one(&case, &path, &prefix);
